@@ -160,7 +160,7 @@ func evChangeZoomExt(t *Tracer, w Win, ids []ID, h, v int64) {
 	o, res := guard(func() (any, error) {
 		return integrate.ChangeExtendedSpatialIdsZoom(real, w.H0+h, w.V0+v)
 	})
-	e := w.ev("ChangeZoomExt", map[string]any{"ids": idsArr(ids), "h": h, "v": v, "kept": sameStrings(real, snap)})
+	e := w.ev("ChangeZoomExt", map[string]any{"ids": idsArr(ids), "h": h, "v": v, "kept": intact(real, snap)})
 	e.O, e.Real = o, map[string]any{"ids": snap, "h": w.H0 + h, "v": w.V0 + v}
 	if o != "panic" {
 		e.R = w.projExtList(strs(res), &e.Bad)
@@ -177,7 +177,7 @@ func evChangeZoomSp(t *Tracer, w Win, ids []ID, z int64) {
 	o, res := guard(func() (any, error) {
 		return integrate.ChangeSpatialIdsZoom(real, w.H0+z)
 	})
-	e := w.ev("ChangeZoomSp", map[string]any{"ids": idsSpArr(ids), "z": z, "kept": sameStrings(real, snap)})
+	e := w.ev("ChangeZoomSp", map[string]any{"ids": idsSpArr(ids), "z": z, "kept": intact(real, snap)})
 	e.O, e.Real = o, map[string]any{"ids": snap, "z": w.H0 + z}
 	if o != "panic" {
 		e.R = w.projSpList(strs(res), &e.Bad)
@@ -275,6 +275,31 @@ func evVerticalZoom(t *Tracer, w Win, id ID, zo int64) {
 	}
 	t.Emit(e, zo != id.V)
 }
+
+// Argument lists are handed to the library with two sentinel entries of spare
+// capacity behind their length (the way a caller's sub-slice ids[:k] of a longer
+// list looks): "left unmodified" covers the caller's memory behind the slice too.
+const spareSentinel = "\x00spare"
+
+func spareOf[T any](ss []T, sent T) []T {
+	p := make([]T, len(ss)+2)
+	copy(p, ss)
+	p[len(ss)], p[len(ss)+1] = sent, sent
+	return p[:len(ss) : len(ss)+2]
+}
+
+func tailIntact[T comparable](ss []T, sent T) bool {
+	if cap(ss) < len(ss)+2 {
+		return true
+	}
+	q := ss[:len(ss)+2]
+	return q[len(ss)] == sent && q[len(ss)+1] == sent
+}
+
+func spare(ss []string) []string { return spareOf(ss, spareSentinel) }
+
+// intact: in (made by spare) still equals its snapshot and its spare capacity is untouched
+func intact(in, snap []string) bool { return sameStrings(in, snap) && tailIntact(in, spareSentinel) }
 
 func sameStrings(a, b []string) bool {
 	if len(a) != len(b) {
